@@ -447,3 +447,132 @@ def _(v):
     tot1 = sum(m.values())
     got = mass_fractions(set(d))
     v.prove("set_of_keys_means_unit_coefficients", all(abs(got[k] - m[k] / tot1) < 1e-14 for k in d))
+
+
+_STATES = ("(s)", "(l)", "(g)", "(aq)")
+
+
+@harness("C14", "state_and_prefix_do_not_weigh", functions=["chempy.chemistry:Substance.from_formula", "chempy.chemistry:Species.from_formula", "chempy.chemistry:Substance.mass",
+                                                           "chempy.chemistry:mass_fractions", "chempy.util.parsing:formula_to_composition"], kind="data")
+def _(v):
+    """'the mass of a substance created from a formula equals the sum over its composition ... for all 118 elements and for every formula of the C01
+    grammar': a state suffix ((s), (l), (g), (aq)) or a crystal-form/radical prefix is no part of the composition, whatever letters the formula
+    next to it ends or starts with - every element symbol alone, as the LAST symbol of a compound, as an ion and behind every prefix, in every
+    state, weighs its reference atomic weight(s) (minus charge electron masses), through Substance and Species, and mixtures of such keys have
+    the fractions of the bare formulas (expectations: the reference rows, sums written by hand)"""
+    from chempy.chemistry import Substance, Species, mass_fractions
+    T = iupac.TABLE
+    mH = T[0][3]
+    me = ELECTRON
+    close = lambda a, b: abs(a - b) <= 1e-9 * max(1.0, abs(b))
+
+    def sweep(make, cases):
+        """cases: (formula, expected mass, expected composition or None); -> the ones refused or off"""
+        bad = []
+        for f, want, comp in cases:
+            try:
+                s = make(f)
+                if not close(s.mass, want) or (comp is not None and dict(s.composition) != comp):
+                    bad.append((f, s.mass, want))
+            except Exception as ex:
+                bad.append((f, repr(ex)[:60], want))
+        return bad
+
+    def report(name, bad, n):
+        v.prove(name, n > 0 and not bad, detail="%d of %d formulas refused or with a mass other than the composition sum, e.g. %s" % (len(bad), n, bad[:3]))
+
+    alone = [(sym + st, m, {z: 1}) for z, sym, nm, m in T for st in _STATES]
+    report("every_element_in_every_state", sweep(Substance.from_formula, alone), len(alone))
+    report("every_element_in_every_state.Species", sweep(Species.from_formula, alone), len(alone))
+    # the element as the last symbol of a compound (a dihydride, written H2X), and with a subscript / a closing bracket before the suffix
+    last = [("H2" + sym + st, 2 * mH + m, None) for z, sym, nm, m in T for st in _STATES]
+    report("compound_ending_in_every_element_in_every_state", sweep(Substance.from_formula, last), len(last))
+    closed = [(f + st, m, None) for z, sym, nm, m0 in T for st in _STATES for f, m in ((sym + "3", 3 * m0), ("(" + sym + ")2", 2 * m0), ("H2..2" + sym, 2 * mH + 2 * m0))]
+    report("subscript_bracket_or_hydrate_part_before_the_state", sweep(Substance.from_formula, closed), len(closed))
+    ions = [(sym + chg + st, m - q * me, {z: 1, 0: q}) for z, sym, nm, m in T for st in _STATES for chg, q in (("+", 1), ("-2", -2))]
+    report("ion_of_every_element_in_every_state", sweep(Substance.from_formula, ions), len(ions))
+    report("ion_of_every_element_in_every_state.Species", sweep(Species.from_formula, ions), len(ions))
+    # prefixes: the crystal form (a Greek letter name and a dash) and the radical dot, before every element; with and without a state behind
+    pre = [(p + sym + st, m, {z: 1}) for z, sym, nm, m in T for p, st in (("alpha-", ""), ("gamma-", "(s)"), ("epsilon-", "(s)"), ("omicron-", "(aq)"), ("omega-", "(l)"), (".", ""), (".", "(g)"))]
+    report("prefix_before_every_element", sweep(Substance.from_formula, pre), len(pre))
+    # mixtures whose keys carry a state: the fractions are those of the bare formulas (all 118 elements, one mole each, per state; then 2:1 pairs
+    # of neighbours in the table, the heavier-numbered one doubled)
+    bad = []
+    tot = sum(m for z, sym, nm, m in T)
+    for st in _STATES:
+        try:
+            fr = mass_fractions({sym + st: 1 for z, sym, nm, m in T})
+            bad += [(sym + st, fr.get(sym + st)) for z, sym, nm, m in T if sym + st not in fr or not close(fr[sym + st] * tot, m)]
+            for (z1, s1, n1, m1), (z2, s2, n2, m2) in zip(T, T[1:]):
+                fr = mass_fractions({s1 + st: 1, s2 + st: 2}, substance_factory=Species.from_formula)
+                if set(fr) != {s1 + st, s2 + st} or not close(fr[s1 + st] * (m1 + 2 * m2), m1) or not close(fr[s2 + st] * (m1 + 2 * m2), 2 * m2):
+                    bad.append((s1 + st, s2 + st, dict(fr)))
+        except Exception as ex:
+            bad.append((st, repr(ex)[:80]))
+    v.prove("mass_fractions_of_keys_with_a_state", not bad, detail="%d off, e.g. %s" % (len(bad), bad[:3]))
+
+
+@harness("C14", "mass_fractions.trace_components", functions=["chempy.chemistry:mass_fractions"], kind="data")
+def _(v):
+    """'mass fractions of any mixture are positive, proportional to coefficient times mass and sum to one' in floating point, for mixtures whose
+    amounts span many orders of magnitude: EVERY fraction - the trace component's too, wherever it stands in the mapping - is positive and equals
+    coefficient * mass / total to a relative 1e-12 (the exact quotient is computed in rational arithmetic from the given masses), so no fraction
+    is obtained as a remainder of the others; ratios of fractions are ratios of coefficient times mass; the sum is one to 1e-12"""
+    from collections import OrderedDict
+    from fractions import Fraction
+    from itertools import permutations
+    from chempy.chemistry import Substance, mass_fractions
+    ref = {sym: m for z, sym, nm, m in iupac.TABLE}
+
+    def check(items, substances=None, masses=None):
+        """items: [(key, coefficient)] in the order of the mapping; -> description of the first deviation or None"""
+        exact = {k: Fraction(c) * Fraction(masses[k]) for k, c in items}
+        tot = sum(exact.values())
+        try:
+            got = mass_fractions(OrderedDict(items), substances) if substances is not None else mass_fractions(OrderedDict(items))
+            if set(got) != set(exact):
+                return "keys %r" % (sorted(got),)
+            for k, c in items:
+                want = exact[k] / tot
+                if not got[k] > 0:
+                    return "%r: fraction of %s is %r, not positive (coefficient*mass/total = %.6e)" % (items, k, got[k], float(want))
+                if abs(Fraction(got[k]) - want) > want * Fraction(1, 10 ** 12):
+                    return "%r: fraction of %s is %r, coefficient*mass/total = %.15e" % (items, k, got[k], float(want))
+            k0 = items[0][0]
+            for k, c in items[1:]:
+                if abs(Fraction(got[k]) * exact[k0] - Fraction(got[k0]) * exact[k]) > Fraction(1, 10 ** 12) * Fraction(got[k]) * exact[k0]:
+                    return "%r: %s and %s are not in the ratio of coefficient times mass" % (items, k0, k)
+            if abs(sum(Fraction(x) for x in got.values()) - 1) > Fraction(1, 10 ** 12):
+                return "%r: sum %r" % (items, sum(got.values()))
+        except Exception as ex:
+            return "%r: %s" % (items, repr(ex)[:100])
+        return None
+
+    # explicit masses (so nothing but mass_fractions is involved): a solvent, a solute and a trace, the trace from 1e-3 down to 1e-24 of an amount,
+    # in every order of the mapping; then two components; then two traces of different size
+    masses = {"solvent": 18.0, "solute": 60.0, "trace": 200.0, "trace2": 5.0}
+    subst = {k: Substance(k, data={"mass": m}) for k, m in masses.items()}
+    n, bad = 0, []
+    for e in (3, 6, 9, 12, 15, 16, 17, 18, 21, 24):
+        tr = 10.0 ** -e
+        mixes = [list(p) for p in permutations([("solvent", 55.5), ("solute", 0.5), ("trace", tr)])]
+        mixes += [[("solvent", 55.5), ("trace", tr)], [("trace", tr), ("solvent", 55.5)]]
+        mixes += [list(p) for p in permutations([("solvent", 1.0), ("trace", tr), ("trace2", 3 * tr * tr)])]
+        for items in mixes:
+            n += 1
+            r = check(items, subst, masses)
+            if r:
+                bad.append(r)
+    v.prove("every_fraction_is_coefficient_times_mass_over_total", n >= 100 and not bad, detail="%d of %d mixtures off, e.g. %s" % (len(bad), n, bad[:2]))
+    # the default path (substances made from the formula keys; masses: reference rows, by hand): air with its rare gases, every rotation of the mapping
+    air = [("N2", 0.78084), ("O2", 0.20946), ("Ar", 0.00934), ("Xe", 8.7e-8), ("Rn", 6e-20)]
+    m_air = {"N2": 2 * ref["N"], "O2": 2 * ref["O"], "Ar": ref["Ar"], "Xe": ref["Xe"], "Rn": ref["Rn"]}
+    bad = [r for r in (check(air[i:] + air[:i], None, m_air) for i in range(len(air))) if r]
+    v.prove("formula_keys_with_trace_gases", not bad, detail="; ".join(bad[:2]))
+    # a single component is the whole: exactly one
+    try:
+        one = mass_fractions({"solvent": 1e-20}, subst)
+        one_ok, detail = set(one) == {"solvent"} and abs(one["solvent"] - 1) <= 1e-12, repr(one)
+    except Exception as ex:
+        one_ok, detail = False, repr(ex)[:200]
+    v.prove("single_trace_component_is_the_whole", one_ok, detail)
